@@ -110,7 +110,7 @@ func c15Pick(w int) (c15Construct, string) {
 			}
 			return s + "%}"
 		}
-		in := c15WS(w)
+		in := c15WS(verifParam("winner", w))
 		return c15Construct{marked: mk(a, open, b) + "\x00" + mk(c, end, d), plain: "{%" + open + "%}\x00{%" + end + "%}", hasInner: true,
 			stripPreR: a, stripInL: b, stripInR: c, stripPostL: d, blockBefore: true, blockAfter: true, innerAfterBlock: true, innerBeforeBlock: true}, in
 	default: // single-line comment: carries no markers and is no block tag
